@@ -1,6 +1,7 @@
 import GrinVerif.Drv.Common
 import GrinVerif.Model.KeysSig
 import GrinVerif.Model.KeysBuild
+import GrinVerif.Model.KeysNonce
 /-! Driver glue for the `keys` domain (property C20): recomputes every observation printed by
 `harness/src/bin/keys.rs` with the model `GrinVerif/Model/Keys.lean`.
 
@@ -297,6 +298,14 @@ def handle (st : St) (args : List String) (impl : String) : St × Verdict :=
       | .ok bs => (st, cmpSpec s!"{toHex (beBytes 32 bs)} {showOpenings ins} {showOpenings outs}" impl)
       | _ => (st, cmpSpec "err" impl)
     | none => (st, .unknown)
+  -- `partial_transaction(base, elems)` on a non-empty base transaction (`T;…` token = its body)
+  | ["xpartialb", base, steps] => match parseXStep base, parseXSteps steps with
+    | some (.initialTx bi bo), some steps =>
+      let (ins, outs, bs) := xPartialTransaction bi bo steps
+      match bs with
+      | .ok bs => (st, cmpSpec s!"{toHex (beBytes 32 bs)} {showOpenings ins} {showOpenings outs}" impl)
+      | _ => (st, cmpSpec "err" impl)
+    | _, _ => (st, .unknown)
   -- signatures (run `sigs`): honest ones verify (rule-fixed), negative controls do not
   | ["sig", variant, _] =>
     if variant.startsWith "ok-" then (st, cmpSpec (sigExpected variant) impl)
@@ -314,6 +323,34 @@ def handle (st : St) (args : List String) (impl : String) : St × Verdict :=
       let okc := verifyCoinbase REWARD fees o e
       (st, cmpSpec s!"{o.value} true true {showBool okc} {if fees = 0 then "block-ok" else "block-skip"}" impl)
     | none => (st, .unknown)
+  -- run `nonces`: the rewind / private nonces of the three builders recomputed from the key material
+  -- (keyed blake2b), `Identifier::from_pubkey`, `BlindingFactor::from_slice`
+  | ["nonce", kind, pubRoot, privRoot, legacyRoot, commit] =>
+    match parseHex pubRoot, parseHex privRoot, parseHex legacyRoot, parseHex commit with
+    | some pubRoot, some privRoot, some legacyRoot, some commit =>
+      let r := match kind with
+        | "new-rewind" => some (builderNonce pubRoot privRoot commit false)
+        | "new-private" => some (builderNonce pubRoot privRoot commit true)
+        | "legacy-rewind" => some (legacyNonce legacyRoot commit)
+        | "legacy-private" => some (legacyNonce legacyRoot commit)
+        | "view-rewind" => some (viewNonce pubRoot commit)
+        | _ => none
+      match r with
+      | some r => (st, cmpModel (showNonce r) impl)
+      | none => (st, .unknown)
+    | _, _, _, _ => (st, .unknown)
+  | ["rewindhash", pubRoot] => match parseHex pubRoot with
+    | some p => (st, cmpModel (toHex (viewRewindHash p)) impl)
+    | none => (st, .unknown)
+  | ["idpub", pub] => match parseHex pub with
+    | some p => (st, cmpModel (toHex (identFromPubkey p)) impl)
+    | none => (st, .unknown)
+  | ["bfslice", data] => match (if data == "-" then some [] else parseHex data) with
+    | some d => (st, cmpModel (toHex (bfFromSlice d)) impl)
+    | none => (st, .unknown)
+  -- `reward::output` called twice with the same arguments: same output (commitment, range proof),
+  -- same excess; the same kernel signature exactly in test mode (fixed nonce)
+  | ["cbdet", _, tm] => (st, cmpSpec s!"true true true {tm}" impl)
   | _ => (st, .unknown)
 
 end GV.Drv.KeysD
